@@ -72,6 +72,9 @@ def main():
     tier = ck.tier
     quick = tier == "quick"
     rnd = random.Random(ck.seed)
+    for fn in os.listdir(ck.wd):  # nothing stale: replay / trace files of earlier runs
+        if fn.startswith(("violation-", "trace-")) and fn.endswith(".json"):
+            os.remove(os.path.join(ck.wd, fn))
     data_wd = os.path.join(ck.wd, "data")
     shutil.rmtree(data_wd, ignore_errors=True)
     os.makedirs(data_wd)
@@ -290,7 +293,9 @@ def main():
         ck.machinery_failure(str(e))
     nrej = sum(1 for p in t.printed if "reject" in p)
     if nrej < want or want < 2:
-        ck.machinery_failure("corrupted trace was not rejected (%d of %d)" % (nrej, want))
+        if not ck.violations:
+            ck.machinery_failure("corrupted trace was not rejected (%d of %d)" % (nrej, want))
+        ck.note("corrupted_trace_demo", "not evaluated: the recorded trace itself is rejected")
     ck.note("corrupted_traces_rejected", nrej)
 
     shutil.rmtree(data_wd, ignore_errors=True)
